@@ -225,7 +225,12 @@ func genDataStmt(t *rapid.T) (string, string) {
 	var parts []string
 	for i := 0; i < n; i++ {
 		if dir == "DB" && rapid.IntRange(0, 3).Draw(t, "dstr") == 0 {
-			parts = append(parts, `"`+rapid.StringMatching(`[a-zA-Z0-9 ,;#.!?]{0,9}`).Draw(t, "dstrv")+`"`)
+			str := rapid.StringMatching(`[a-zA-Z0-9 ,;#.!?]{0,9}`).Draw(t, "dstrv")
+			if rapid.IntRange(0, 5).Draw(t, "dstrx") == 0 {
+				// text beyond ASCII: the number of bytes is not the number of characters
+				str += rapid.SampledFrom([]string{"caf\u00e9", "\u65e5\u672c", "\u20ac", "\U0001F600"}).Draw(t, "dstrxv")
+			}
+			parts = append(parts, `"`+str+`"`)
 			continue
 		}
 		var v int64
